@@ -29,6 +29,45 @@ def private_array_line(rng):
     return calls.line("@private_array", "iss", (rng.randint(0, 6), "".join(out), rng.choice(names + ["zz_private_entry", "absent"])))
 
 
+def run_mix(st, exe, lines, T, sdir, tag, rng, mi):
+    """serial reference + three thread runs (yield patterns) of one list of call lines; judged here"""
+    serial, rc0, err0 = calls.run(exe, "simple", lines, sdir, tag + "_s", env=TSAN_ENV)
+    if rc0 != 0 or len(serial) != len(lines):
+        st.violation("serial-run-failed", dict(mix=mi), "serial reference", err0[-1200:])
+        return
+    for l in serial:
+        if "pa:rv=" in l:
+            st.cls("private_array:" + ("loaded" if "pa:rv=1" in l else "rejected"))
+        elif "pa:no" in l:
+            st.violation("private-array-scenario-broken", dict(mix=mi), "array and file", l[:200])
+    for ys in (0, 1 + rng.randrange(1000), 1 + rng.randrange(1000)):
+        st.ev()
+        out, rc, err = calls.run(exe, "threads:%d:%d" % (T, ys), lines, sdir, tag + "_t", env=TSAN_ENV)
+        case = dict(threads=T, calls=len(lines), yield_seed=ys, sample=[l.replace("\t", " ")[:80] for l in lines[:6]])
+        if rc != 0 or "ThreadSanitizer" in err:
+            import re
+            m = re.search(r"WARNING: ThreadSanitizer: ([^\n]+)", err)
+            frames = re.findall(r"#\d+ (\w+) [^\n]*/src/([\w.-]+):(\d+)", err)
+            where = "%s@%s" % (frames[0][0], frames[0][1]) if frames else "unknown"
+            st.violation("tsan:%s:%s" % ((m.group(1).split(" (")[0] if m else "exit%d" % rc).replace(" ", "-"), where), case, "no data race", err[:2500])
+            break
+        if not out or not out[-1].startswith("TSTATE") or len(out) != len(lines) + 1:
+            st.violation("threads-run-failed", case, "complete output", err[-800:])
+            break
+        if int(out[-1].split("\t")[1]) > 0:
+            st.violation("setlocale-while-threaded", case, "no locale change while workers are live", out[-1])
+        diff = [i for i, (a, b) in enumerate(zip(serial, out)) if a != b]
+        if diff:
+            i = diff[0]
+            st.violation("differs-from-serial:" + lines[i].split("\t")[0], dict(case, call=lines[i].replace("\t", " ")[:200]), serial[i][:200], out[i][:200])
+            break
+        alloc_threads = len({i % T for i, l in enumerate(lines) if ("_CP\t" in l or l.startswith(("CompoundParser", "Get", "Crystal_GetCrystal", "Refractive", "AtomicNumberToSymbol", "Crystal_MakeCopy")))})
+        if alloc_threads >= 2:
+            st.nt_key(tuple(lines), ys)
+        st.cls("mix_runs")
+        st.cls("calls", len(lines))
+
+
 def work(item):
     exe, src, seed, nmix, per_thread, sdir, tag = item
     st = Stats()
@@ -66,42 +105,33 @@ def work(item):
                 continue
             k, a = rng.choice(sw)
             lines.append(calls.line(fn, k, a))
-        serial, rc0, err0 = calls.run(exe, "simple", lines, sdir, tag + "_s", env=TSAN_ENV)
-        if rc0 != 0 or len(serial) != len(lines):
-            st.violation("serial-run-failed", dict(mix=mi), "serial reference", err0[-1200:])
-            continue
-        for l in serial:
-            if "pa:rv=" in l:
-                st.cls("private_array:" + ("loaded" if "pa:rv=1" in l else "rejected"))
-            elif "pa:no" in l:
-                st.violation("private-array-scenario-broken", dict(mix=mi), "array and file", l[:200])
-        for ys in (0, 1 + rng.randrange(1000), 1 + rng.randrange(1000)):
-            st.ev()
-            out, rc, err = calls.run(exe, "threads:%d:%d" % (T, ys), lines, sdir, tag + "_t", env=TSAN_ENV)
-            case = dict(threads=T, calls=len(lines), yield_seed=ys, sample=[l.replace("\t", " ")[:80] for l in lines[:6]])
-            if rc != 0 or "ThreadSanitizer" in err:
-                import re
-                m = re.search(r"WARNING: ThreadSanitizer: ([^\n]+)", err)
-                frames = re.findall(r"#\d+ (\w+) [^\n]*/src/([\w.-]+):(\d+)", err)
-                where = "%s@%s" % (frames[0][0], frames[0][1]) if frames else "unknown"
-                st.violation("tsan:%s:%s" % ((m.group(1).split(" (")[0] if m else "exit%d" % rc).replace(" ", "-"), where), case, "no data race", err[:2500])
-                break
-            if not out or not out[-1].startswith("TSTATE") or len(out) != len(lines) + 1:
-                st.violation("threads-run-failed", case, "complete output", err[-800:])
-                break
-            if int(out[-1].split("\t")[1]) > 0:
-                st.violation("setlocale-while-threaded", case, "no locale change while workers are live", out[-1])
-            diff = [i for i, (a, b) in enumerate(zip(serial, out)) if a != b]
-            if diff:
-                i = diff[0]
-                st.violation("differs-from-serial:" + lines[i].split("\t")[0], dict(case, call=lines[i].replace("\t", " ")[:200]), serial[i][:200], out[i][:200])
-                break
-            alloc_threads = len({i % T for i, l in enumerate(lines) if ("_CP\t" in l or l.startswith(("CompoundParser", "Get", "Crystal_GetCrystal", "Refractive", "AtomicNumberToSymbol", "Crystal_MakeCopy")))})
-            if alloc_threads >= 2:
-                st.nt_key(tuple(lines), ys)
-            st.cls("mix_runs")
-            st.cls("calls", len(lines))
+        run_mix(st, exe, lines, T, sdir, tag, rng, mi)
         st.sample("mix", dict(threads=T, calls=len(lines), first=[l.replace("\t", " ")[:70] for l in lines[:4]]), cap=2)
+    return st
+
+
+def work_focus(item):
+    """focus mixes: T threads execute the SAME argument sweep of a few functions in lockstep (every value of every discrete class appears, so a
+    static touched only for one line macro or one shell is touched by all threads at once).  ThreadSanitizer's happens-before detection then
+    reports the unsynchronised access whether or not the schedule made it visible in the results."""
+    exe, src, seed, budget, fns, sdir, tag = item
+    st = Stats()
+    h, desc = apigen.descriptors(src)
+    desc = dict(desc)
+    desc["add_compound_data"] = dict(ret="struct compoundData*", args=["const char*", "double", "const char*", "double"], argnames=["compound", "weightA", "compound", "weightB"])
+    vals = apisweep.Values(h, src, mix(seed, "c17f", tag))
+    vals.nist_names, vals.nuc_names, vals.crystal_names = c03.catalogue_names(exe, sdir, tag)
+    rng = random.Random(mix(seed, "c17focus", tag))
+    T = 4
+    group = []
+    for gi in range(0, len(fns), 6):
+        lines = []
+        for fn in fns[gi:gi + 6]:
+            for kinds, args in apisweep.sweep(h, desc, vals, fn, budget, True):
+                lines += [calls.line(fn, kinds, args)] * T
+        if lines:
+            run_mix(st, exe, lines, T, sdir, tag, rng, "focus:" + ",".join(fns[gi:gi + 6]))
+            st.cls("focus_mixes")
     return st
 
 
@@ -117,10 +147,14 @@ def run(ctx):
                            extra=["-I" + gen, "-Wno-deprecated-declarations", "-pthread", "-DXRLCALL_WRAP_SETLOCALE", "-Wl,--wrap=setlocale"])
     items = [(exe, b["src"], ctx.seed, nmix, per_thread, ctx.sdir, "w%d" % k) for k in range(5 if quick else 8)]
     ctx.stats.merge(common.pmap(work, items, jobs=5 if quick else 4))
+    allf = sorted(apigen.descriptors(b["src"])[1]) + ["add_compound_data"]
+    nf = 8
+    items_f = [(exe, b["src"], ctx.seed, 60 if quick else 600, allf[k::nf], ctx.sdir, "f%d" % k) for k in range(nf)]
+    ctx.stats.merge(common.pmap(work_focus, items_f, jobs=8))
     ctx.rule = ("%d workers x %d generated mixes x 3 yield patterns: T in {8,12,16} threads, %d..%d calls per thread drawn (seeded) from the C03 argument "
                 "classes over every exported function (insertion only into collections private to the calling thread: init, ReadFile of a generated file, AddCrystal, "
                 "list, lookup, free), with blocks of identical queries issued by all threads at once; "
-                "ThreadSanitizer build (library and harness), barrier start, seeded sched_yield injection in the harness; compared line by line with a "
+                "plus focus mixes in which 4 threads execute the same argument sweep of every function in lockstep; ThreadSanitizer build (library and harness), barrier start, seeded sched_yield injection in the harness; compared line by line with a "
                 "serial run of the same lists; setlocale observed through -Wl,--wrap. non-trivial = mix run in which >= 2 threads execute "
                 "allocating calls, distinct by (call lists, yield pattern)" % (len(items), nmix, per_thread // 2, per_thread))
     ctx.assumptions = ["races inside uninstrumented libc other than setlocale are invisible to ThreadSanitizer",
